@@ -171,6 +171,112 @@ fn run_once(sc: &Scenario, plan: Option<FaultPlan>, reference: Option<&Vec<Snap>
     }
 }
 
+/// Run the whole enumeration for this history in a child process (`verif exec-child C18`, the
+/// scenario on its standard input, the report on its standard output) whose standard error is the
+/// write end of a pipe nobody reads: every write to it fails with EPIPE.
+fn exec_in_child(sc: &Scenario) -> Report {
+    use std::io::Write;
+    use std::os::fd::{FromRawFd, OwnedFd};
+    use std::process::{Command, Stdio};
+    let mut r = Report::default();
+    let exe = match std::env::current_exe() {
+        Ok(e) => e,
+        Err(e) => {
+            r.harness_error = Some(format!("current_exe: {e}"));
+            return r;
+        }
+    };
+    let mut fds = [0 as libc::c_int; 2];
+    if unsafe { libc::pipe(fds.as_mut_ptr()) } != 0 {
+        r.harness_error = Some("pipe() failed".into());
+        return r;
+    }
+    unsafe { libc::close(fds[0]) };
+    let broken = unsafe { OwnedFd::from_raw_fd(fds[1]) };
+    let child = Command::new(exe)
+        .args(["exec-child", "C18"])
+        .env("VERIF_IN_CHILD", "1")
+        .stdin(Stdio::piped())
+        .stdout(Stdio::piped())
+        .stderr(Stdio::from(broken))
+        .spawn();
+    let mut child = match child {
+        Ok(c) => c,
+        Err(e) => {
+            r.harness_error = Some(format!("cannot start the child process: {e}"));
+            return r;
+        }
+    };
+    if let Some(mut si) = child.stdin.take() {
+        let _ = si.write_all(sc.to_json().to_string().as_bytes());
+    }
+    let out = match child.wait_with_output() {
+        Ok(o) => o,
+        Err(e) => {
+            r.harness_error = Some(format!("waiting for the child process: {e}"));
+            return r;
+        }
+    };
+    let text = String::from_utf8_lossy(&out.stdout);
+    let parsed = text.lines().rev().find_map(|l| l.strip_prefix("CHILD-REPORT ")).and_then(|j| serde_json::from_str::<serde_json::Value>(j).ok());
+    let Some(v) = parsed else {
+        // no report: the process died (a panic inside a panic aborts, for instance)
+        r.sub_runs = 1;
+        r.violate(
+            "C18.no_panic",
+            format!("the process that ran this history with a standard error that cannot be written ended with {} and without a report", out.status),
+        );
+        return r;
+    };
+    if let Some(a) = v["violation"].as_array() {
+        r.violate(a[0].as_str().unwrap_or("C18.no_panic"), format!("[real standard error not writable] {}", a[1].as_str().unwrap_or("")));
+    }
+    r.harness_error = v["harness_error"].as_str().map(|s| s.to_string());
+    r.inconclusive = v["inconclusive"].as_bool().unwrap_or(false);
+    r.nontrivial = v["nontrivial"].as_bool().unwrap_or(false);
+    r.sub_runs = v["sub_runs"].as_u64().unwrap_or(1);
+    r.sim_ns = v["sim_ns"].as_u64().unwrap_or(0);
+    r.steps = v["steps"].as_u64().unwrap_or(0);
+    r.trace_hash = v["trace_hash"].as_u64().unwrap_or(0);
+    for (name, map) in [("probes", &mut r.probes), ("faults", &mut r.faults)] {
+        if let Some(o) = v[name].as_object() {
+            for (k, x) in o {
+                map.insert(k.clone(), x.as_u64().unwrap_or(0));
+            }
+        }
+    }
+    r.probe("histories_run_with_unwritable_stderr");
+    r
+}
+
+/// The other side of `exec_in_child`.
+pub fn child_main(check: &dyn Check) -> i32 {
+    use std::io::Read;
+    let mut text = String::new();
+    if std::io::stdin().read_to_string(&mut text).is_err() {
+        return 2;
+    }
+    let sc = match serde_json::from_str::<serde_json::Value>(&text).ok().and_then(|v| Scenario::from_json(&v)) {
+        Some(s) => s,
+        None => return 2,
+    };
+    let r = check.exec(&sc);
+    let v = serde_json::json!({
+        "violation": r.violation.as_ref().map(|(a, b)| vec![a.clone(), b.clone()]),
+        "harness_error": r.harness_error,
+        "inconclusive": r.inconclusive,
+        "nontrivial": r.nontrivial,
+        "sub_runs": r.sub_runs,
+        "sim_ns": r.sim_ns,
+        "steps": r.steps,
+        "trace_hash": r.trace_hash,
+        "probes": r.probes,
+        "faults": r.faults,
+    });
+    println!("CHILD-REPORT {v}");
+    0
+}
+
 impl Check for C18 {
     fn id(&self) -> &'static str {
         "C18"
@@ -179,7 +285,7 @@ impl Check for C18 {
         "fault_enumeration"
     }
     fn rule_text(&self) -> String {
-        "Histories (3..15 quick / 3..30 thorough calls; standalone bars and MultiProgress with siblings; tick/inc/set_message/set_prefix/set_length/set_style/set_tab_width/println/suspend/reset/finish*/force_draw/iterator completion, add/insert*/remove/drop, mp.println/clear/suspend, optional steady ticker + simulated sleeps) are sampled from the seed. For each history the fault-free run counts the terminal calls N; then every index k in 0..N is failed in three modes (only call k fails / call k and all later calls fail / call k fails and each later call fails with probability 1/2, a fixed function of the indices) with rotating errors (io::ErrorKind Other, BrokenPipe, Interrupted, WouldBlock, WriteZero, and errors carrying an OS code: EIO, EPIPE, EINTR, EAGAIN, ENOSPC): exhaustive over (k, mode) per history for k < 250, every 41st index and every flush call beyond that (one history in sixty prints a text of 130..400 lines; one history in twelve ends with 240..300 forced redraws: the program carries on for long after the terminal went away). Oracle: no call panics on any simulated thread; getters (position, length, message, prefix, is_finished) after every call equal the fault-free run; mp.println/mp.clear return Err iff a terminal call failed during them; afterwards every bar, sibling and the MultiProgress are exercised and dropped without panic (a poisoned lock shows there), and a println on a MultiProgress that is not hidden must make terminal calls again (no failure silences the target for good). Non-trivial: history with N >= 3 terminal calls. Distinct = distinct scenario hash; 'executions_including_sub_runs' counts the enumerated fault runs.".into()
+        "Histories (3..15 quick / 3..30 thorough calls; standalone bars and MultiProgress with siblings; tick/inc/set_message/set_prefix/set_length/set_style/set_tab_width/println/suspend/reset/finish*/force_draw/iterator completion, add/insert*/remove/drop, mp.println/clear/suspend, optional steady ticker + simulated sleeps) are sampled from the seed. For each history the fault-free run counts the terminal calls N; then every index k in 0..N is failed in three modes (only call k fails / call k and all later calls fail / call k fails and each later call fails with probability 1/2, a fixed function of the indices) with rotating errors (io::ErrorKind Other, BrokenPipe, Interrupted, WouldBlock, WriteZero, and errors carrying an OS code: EIO, EPIPE, EINTR, EAGAIN, ENOSPC): exhaustive over (k, mode) per history for k < 250, every 41st index and every flush call beyond that (one history in sixty prints a text of 130..400 lines; one history in twelve ends with 240..300 forced redraws: the program carries on for long after the terminal went away). One history in forty runs (with its whole enumeration) in a child process whose real standard error is a pipe nobody reads, so that every write to it fails with EPIPE; a process that dies without a report is a violation. Oracle: no call panics on any simulated thread; getters (position, length, message, prefix, is_finished) after every call equal the fault-free run; mp.println/mp.clear return Err iff a terminal call failed during them; afterwards every bar, sibling and the MultiProgress are exercised and dropped without panic (a poisoned lock shows there), and a println on a MultiProgress that is not hidden must make terminal calls again (no failure silences the target for good). Non-trivial: history with N >= 3 terminal calls. Distinct = distinct scenario hash; 'executions_including_sub_runs' counts the enumerated fault runs.".into()
     }
     fn assumptions(&self) -> Vec<String> {
         vec![
@@ -278,6 +384,10 @@ impl Check for C18 {
             sc.mode = format!("{}+long", sc.mode);
         }
         sc.set("xcheck", 0);
+        // (one history in forty runs in a process whose real standard error cannot be written)
+        if !long_tail && rng.chance(1, 40) {
+            sc.set("stderr_broken", 1);
+        }
         // (mostly roomy; sometimes so low that frames are cut at the terminal height)
         let hh = *rng.pick(&[30, 30, 30, 1, 2, 3]);
         sc.set("h", hh);
@@ -335,6 +445,11 @@ impl Check for C18 {
         sc
     }
     fn exec(&self, sc: &Scenario) -> Report {
+        // (a share of the histories runs in a process of its own whose real standard error cannot
+        // be written: whatever the library does about a failed draw must not depend on it)
+        if sc.c("stderr_broken") == 1 && std::env::var_os("VERIF_IN_CHILD").is_none() {
+            return exec_in_child(sc);
+        }
         // pinned single plan (replay of a minimised failure)
         let pinned = sc.cfg.contains_key("fault_k");
         let base = run_once(sc, None, None);
